@@ -126,6 +126,12 @@ def build_harness():
     if rc != 0:
         # a change to /repo that alters its dependency set would need a new lock; anything else is a compile error in /repo
         raise Infra('harness build failed:\n' + out[-3000:])
+    if os.environ.get('VERIF_BUILD_BINARY') == '1':
+        import c17
+        try:
+            c17.build_binary()
+        except Exception as e:
+            raise Infra(str(e))
     if not os.path.exists(DRIVER):
         rc, out = sh(['lake', 'build', 'tcsdriver'], cwd=LEAN, timeout=1800, check=True)
     return True
@@ -138,6 +144,15 @@ def run_driver(trace, model, flags=()):
 
 def run_shard(args):
     scen, hargs, path, flags = args
+    if scen.startswith('py:'):
+        t0 = time.time()
+        import c17
+        try:
+            c17.main(path, int(hargs.get('seed', 0)), int(hargs.get('first', 0)), int(hargs.get('n', 1)))
+        except Exception as e:
+            raise Infra(f'{scen} failed: {e}')
+        run_driver(path, path + '.model', flags)
+        return path, time.time() - t0
     cmd = [HBIN, scen] + [str(x) for kv in hargs.items() for x in ('--' + kv[0], kv[1])] + ['--out', path]
     t0 = time.time()
     p = subprocess.run(cmd, stdout=subprocess.PIPE, stderr=subprocess.PIPE, timeout=7200)
